@@ -47,6 +47,25 @@ func invertCffConstraint(exp *constraint.Expr) {
 // 'bar' is disabled because we don't care at this point in the program.
 // We can assume that the constraint for 'cff' evaluates to true because the
 // package loader wouldn't have picked up this file otherwise.
+// collapseDoubleNegation rewrites !(!x) to x. constraint.Expr.String prints
+// a doubly negated expression as "!!x", which the go command rejects
+// ("double negation not allowed").
+func collapseDoubleNegation(exp *constraint.Expr) {
+	switch ex := (*exp).(type) {
+	case *constraint.AndExpr:
+		collapseDoubleNegation(&ex.X)
+		collapseDoubleNegation(&ex.Y)
+	case *constraint.OrExpr:
+		collapseDoubleNegation(&ex.X)
+		collapseDoubleNegation(&ex.Y)
+	case *constraint.NotExpr:
+		collapseDoubleNegation(&ex.X)
+		if inner, ok := ex.X.(*constraint.NotExpr); ok {
+			*exp = inner.X
+		}
+	}
+}
+
 func hasCffTag(exp constraint.Expr) (found bool) {
 	exp.Eval(func(tag string) bool {
 		if tag == "cff" {
@@ -109,6 +128,7 @@ func writeInvertedCffTag(w io.Writer, bs []byte) error {
 			continue
 		}
 		invertCffConstraint(&expr)
+		collapseDoubleNegation(&expr)
 
 		if isGoBuild {
 			fmt.Fprintf(w, "//go:build %v\n", expr.String())
